@@ -570,6 +570,32 @@ pub fn drive(a: &Args) -> i32 {
             }
         }
     }
+    // routing-table admission is also handed IPv6 socket addresses (plain, bare, and the library's rendering): the per-/64 gate
+    // must see them as that address. (The word-based consumers are not probed with IPv6: the dependency's IPv6 word encoding
+    // is recorded separately, C19-F4..F6.)
+    for s6 in ["[2001:db8::1]:9000", "[2a00:1450:4001:81b::200e]:443", "[fd12:3456:789a::1]:7000", "[2001:db8:1:2:3:4:5:6]:1"] {
+        let Ok(sa) = s6.parse::<SocketAddr>() else { continue };
+        let na = NetworkAddress::new(sa);
+        let forms: Vec<(&str, String)> = vec![("sock", sa.to_string()), ("ipOnly", sa.ip().to_string()), (classify(&na.to_string()), na.to_string())];
+        for (f, text) in forms {
+            if f == "other" {
+                continue;
+            }
+            let t2 = text.clone();
+            let r = common::catch(std::panic::AssertUnwindSafe(|| rt.block_on(gate_probe(&t2))));
+            match r {
+                Ok(Ok((ok, refused))) => {
+                    let out = if refused > 0 { "same" } else { "error" };
+                    t.ev(json!({"ev":"Consume","consumer":"AddNode","form":f,"a":addr_json(&sa),"out":out,"admitted":ok,"refused":refused,"text":text}));
+                }
+                Ok(Err(e)) => {
+                    eprintln!("c19: gate probe: {e}");
+                    return 2;
+                }
+                Err(_) => t.ev(json!({"ev":"Consume","consumer":"AddNode","form":f,"a":addr_json(&sa),"out":"panic","text":text})),
+            }
+        }
+    }
     if let Err(e) = net_segment(&mut t, a.num("net_addrs", 12) as usize) {
         eprintln!("c19: net segment: {e}");
         return 2;
